@@ -155,3 +155,32 @@ def anchor(prop="C10"):
               lambda v0, res, v1: v1._e.to_str(v1._p, res) == z3.Concat(sel(H(v0, "obj"), v0.self), z3.StringVal("-"), QUOTE(IDENT_OF(v0.self))))
     c.no_raise = True
     return c
+
+
+def object_page(prop="C10"):
+    """DocPage.object_page: the file name of an entity page is the identifier plus '.html' and nothing else - the identifier was made unique per directory by
+    NameSelector (get_name contract), so the map identifier -> file name must be injective, and it must be the last component of get_url() ('<dir>/<ident>.html',
+    C09 contract) so that the page is written where its links point."""
+    c = base(Contract("ford.output", "DocPage.object_page", prop))
+    c.fields.update({"obj": "ref"})
+    c.param("self", TRef("DocPage"))
+    c.props["ident"] = lambda eng, path, obj: SStr(IDENT_OF(obj.t))
+    c.assumed.append("self.obj.ident is the NameSelector identifier of the entity (get_name contract)")
+    c.ensures("file_name_is_identifier_dot_html",
+              lambda v0, res, v1: v1._e.to_str(v1._p, res) == z3.Concat(IDENT_OF(sel(H(v0, "obj"), v0.self)), z3.StringVal(".html")))
+    c.no_raise = True
+    return c
+
+
+def is_interface_procedure(prop="C10"):
+    """FortranProcedure.is_interface_procedure decides whether a procedure borrows the identifier, directory and accessibility of its interface block.  Only the single
+    procedure of a non-generic (or abstract) interface block *is* that interface; the interface bodies of a generic interface are distinct procedures that must keep
+    identifiers (anchors, URLs) of their own."""
+    c = base(Contract("ford.sourceform", "FortranProcedure.is_interface_procedure", prop))
+    c.fields.update({"generic": "bool"})
+    c.param("self", TRef("FortranProcedure"))
+    par = lambda v: sel(H(v, "parent"), v.self)
+    c.ensures("only_the_procedure_of_a_non_generic_interface_block_shares_its_identity",
+              lambda v0, res, v1: res.t == z3.And(par(v0) != 0, c.classes.is_a(par(v0), "FortranInterface"), z3.Not(sel(H(v0, "generic"), par(v0)))))
+    c.no_raise = True
+    return c
